@@ -108,24 +108,24 @@ theorem scalar_annotation_redundant (k : GoKind) (nm : String) (allow : Bool) (t
     (hk : kindTag k = some tag) :
     (doParseType (.prim k nm) false [] allow).map (·.1) = some (baseOfTag tag) ∧
     ∀ kw ∈ ["bool", "i8", "byte", "double", "i16", "i32", "i64", "string"],
-      isInfix kw.toList (keywordOf tag).toList = true →
+      isKeyword tag kw.toList = true →
       (doParseType (.prim k nm) true kw.toList allow).map (·.1) = some (baseOfTag tag) := by
   cases k <;> simp [kindTag] at hk <;> subst hk <;>
-    simp [doParseType, kindTag, matchAnnot, readToken, isGoSpace, isIdent0, isIdent, keywordOf,
-      isInfix, baseOfTag]
+    simp [doParseType, kindTag, matchAnnot, readToken, isGoSpace, isIdent0, isIdent, isKeyword, keywordsOf,
+      baseOfTag]
 
 theorem byte_is_i8 (nm : String) (allow : Bool) :
     doParseType (.prim .int8 nm) true "byte".toList allow =
       doParseType (.prim .int8 nm) true "i8".toList allow := by
-  simp [doParseType, kindTag, matchAnnot, readToken, isGoSpace, isIdent0, isIdent, keywordOf,
-    isInfix, baseOfTag]
+  simp [doParseType, kindTag, matchAnnot, readToken, isGoSpace, isIdent0, isIdent, isKeyword, keywordsOf,
+    baseOfTag]
 
 /-- int64 is an enum exactly when the annotation names the Go type instead of `i64` -/
 theorem enum_rule (k : GoKind) (nm : String) (d : List Char) (allow : Bool) (t : Ty) (r : List Char)
     (h : doParseType (.prim k nm) true d allow = some (t, r)) :
     t = .base .enum ↔
       (kindTag k = some .i64 ∧ GoTy.prim k nm ≠ .prim .int64 "int64" ∧
-       ∃ tv rest, readToken d false = some (tv, rest) ∧ isInfix tv "i64".toList = false) := by
+       ∃ tv rest, readToken d false = some (tv, rest) ∧ isKeyword .i64 tv = false) := by
   unfold doParseType at h
   cases hk : kindTag k with
   | none => simp [hk] at h
@@ -153,7 +153,6 @@ theorem enum_rule (k : GoKind) (nm : String) (d : List Char) (allow : Bool) (t :
             obtain ⟨rfl, rfl⟩ := htok'
             simp only [Option.some.injEq] at htag
             subst htag
-            simp only [keywordOf] at hinf
             rw [hinf] at hni
             cases hni
         · rename_i hinf
@@ -247,7 +246,7 @@ theorem readToken_ident (s rest : List Char) (eofok : Bool) (hs : identLike s) (
 /-- `pkg.Name` names the same struct as `Name` -/
 theorem qualified_name_same (vt : GoTy) (pkg nm rest : List Char) (hp : identLike pkg) (hn : identLike nm)
     (hrest : stopsIdent rest) (hnodot : ∀ r, rest ≠ '.' :: r)
-    (hkw1 : isInfix pkg "struct".toList = false) (hkw2 : isInfix nm "struct".toList = false)
+    (hkw1 : isKeyword .strct pkg = false) (hkw2 : isKeyword .strct nm = false)
     (hend : ∃ tok sp, readToken rest true = some (tok, sp) ∧ (tok = [] ∨ tok = [':'] ∨ tok = ['>']))
     (hnamed : vt.name ≠ "") :
     matchAnnot vt .strct (pkg ++ '.' :: nm ++ rest) = matchAnnot vt .strct (nm ++ rest) := by
@@ -267,7 +266,7 @@ theorem qualified_name_same (vt : GoTy) (pkg nm rest : List Char) (hp : identLik
   have hname : (vt.name == "" && vt.isStructKind) = false := by
     simp [hnamed]
   unfold matchAnnot
-  simp only [e1, e2, keywordOf, hkw1, hkw2, Bool.false_eq_true, ↓reduceIte]
+  simp only [e1, e2, hkw1, hkw2, Bool.false_eq_true, ↓reduceIte]
   obtain ⟨c1, r1, rfl, hc1⟩ := hp0
   obtain ⟨c2, r2, rfl, hc2⟩ := hn0
   simp only [hc1, hc2, Bool.not_true, Bool.false_eq_true, ↓reduceIte]
